@@ -25,7 +25,7 @@ def c06(tier):
 def c16(tier):
     n = 3 if tier == "quick" else 5
     jobs = [Job("h_c16::diff_roundtrip", p, {"hash_order": "fixed"}, budget_s=1500, validate=(30 if tier == "quick" else 50)) for p in pairs(n)]
-    chains = [(7, 3, 0), (7, 3, 1)] if tier == "quick" else [(7, 3, 0), (7, 3, 1), (12, 3, 0), (7, 4, 1)]
+    chains = [(7, 3, 0), (7, 3, 1), (3, 4, 0)] if tier == "quick" else [(7, 3, 0), (7, 3, 1), (3, 4, 0), (3, 4, 1), (12, 3, 0), (5, 4, 1)]
     for c in chains:
         jobs.append(Job("h_c04::array_chain", c, dict(S2), budget_s=3000, validate=30))
     return dict(
@@ -124,7 +124,7 @@ S2_ASSUME = ["single client thread; rayon par_iter bodies run sequentially in on
 
 
 def c04(tier):
-    combos = [(0, 4, 1, 0), (0, 4, 1, 1), (1, 0, 1, 1), (2, 0, 2, 0), (2, 0, 2, 1)]
+    combos = [(0, 4, 1, 0), (0, 4, 1, 1), (1, 0, 1, 1), (2, 0, 2, 0), (2, 0, 2, 1), (3, 0, 1, 0), (3, 0, 1, 1)]
     if tier != "quick":
         combos += [(0, 7, 1, 1), (0, 4, 2, 0), (1, 0, 2, 0), (1, 0, 1, 0), (0, 12, 1, 0)]
     jobs = [Job("h_c04::update_read", c, dict(S2), budget_s=3000, validate=30) for c in combos]
@@ -132,7 +132,8 @@ def c04(tier):
                 bounds={"combos [variant, element orders, prior documents, commit after each prior document]": [list(c) for c in combos],
                         "variant 0": "element order of items♭ x membership of a second flattened array (objects move between arrays)",
                         "variant 1": "flattened object / '^'-prefixed string meta♭ and flattened string s♭ (symbolic printable char) appear, disappear, change kind",
-                        "variant 2": "flattened key more♭ changes kind: absent / array / empty array / number / string / object"},
+                        "variant 2": "flattened key more♭ changes kind: absent / array / empty array / number / string / object",
+                        "variant 3": "sibling array elements carrying anonymous (id-less) objects under the same flattened key, equal or different (symbolic) content"},
                 assumptions=S2_ASSUME + ["documents are well formed in the sense of the property (unique string ids not starting with '^', no '#' key)"],
                 note="utils::flatten/unflatten + melda.rs update / update_object / delete_object / create_object / read / commit from MIR")
 
@@ -249,7 +250,8 @@ def c14(tier):
 
 def c07(tier):
     jobs = [Job("h_c07::resolve_object", (0,), dict(S2), budget_s=3000, validate=30),
-            Job("h_c07::resolve_both", (), dict(S2), budget_s=3000, validate=30)]
+            Job("h_c07::resolve_both", (), dict(S2), budget_s=3000, validate=30),
+            Job("h_c07::resolve_three", (), dict(S2), budget_s=3000, validate=30)]
     return dict(jobs=jobs, bounds={"scenario": "base [a,b]; each replica concurrently updates a to a symbolic value or deletes it; exchange; every live leaf chosen; commit; propagate / independent resolutions on both replicas"},
                 assumptions=S2_ASSUME, note="melda.rs resolve_as / update_object / delete_object / get_* / read / commit / meld / refresh from MIR")
 
@@ -266,7 +268,8 @@ def c08(tier):
 
 def c10(tier):
     jobs = [Job("h_c10::junk_item", (11,), dict(S2), budget_s=3000, validate=40),
-            Job("h_c10::damaged_item", (), dict(S2), budget_s=3000, validate=40)]
+            Job("h_c10::damaged_item", (), dict(S2), budget_s=3000, validate=40),
+            Job("h_c10::damaged_merge", (), dict(S2), budget_s=3000, validate=16)]
     return dict(jobs=jobs, bounds={"history": "one replica, two commits (2 blocks + 2 packs)",
                                    "junk": "names <digits{1..11}>-<word{1,2}>.delta, <word{1..3}>.delta/.pack, revision-like names; content <= 2 symbolic bytes",
                                    "damage": "any one of the 4 items removed, emptied, truncated by one byte or to half, or one byte (first/middle/last) replaced by any different byte"},
